@@ -3,7 +3,18 @@ package c16
 import "verif/harness/mc"
 
 // Parts: one exhaustive enumeration per module.
+// Parts: every module's evaluation runs in a child process under an address-space limit (a parameter-sized
+// allocation is an abort no recover() catches).
 func Parts() []mc.Part {
+	var ps []mc.Part
+	for _, p := range InnerParts() {
+		ps = append(ps, mc.GuardedSubprocessPart("C16", p.Name))
+	}
+	return ps
+}
+
+// InnerParts are the in-process evaluations the child processes run.
+func InnerParts() []mc.Part {
 	return []mc.Part{
 		part(coinswapSpec()),
 		part(farmSpec()),
